@@ -1,10 +1,301 @@
-/- C13 property theorems (placeholder while the proofs are being built) -/
-import ArvVerif.Model.C13
+/-
+C13 — concurrent use of a collection filesystem never loses or mixes file data.
+Property theorems on the ATOMIC-STEP model (Model/C13.lean, on top of C08's model):
+
+  C13_inv_invariant           the invariant (C08's + "every flushing token is backed by the bytes handed
+                              to PutB") holds initially and after every step of any schedule
+  C13_flush_completion_safe   a background completion, whenever and with whatever it arrives, leaves the
+                              abstract state untouched; it replaces exactly under the guards
+  C13_handoff_immutable       copy-on-write: a buffer handed to PutB is never written afterwards
+  C13_linearizable            every interleaving is the sequential history in that order
+  C13_saved_manifest          a save at any point returns the contents at that point of the history
+  C13_lock_order              hierarchical locking: no wait-for cycle; Rename / Flush obey the rule
+
+What these theorems do NOT say: that the Go code really is atomic at these steps (data-race freedom),
+that sync.RWMutex / channels behave, deadlock freedom with the throttle and real goroutines. Those
+are exercised by the correspondence run (race detector, parked PutB, deadline), not proved.
+-/
+import ArvVerif.Proofs.C13_Hist
+import ArvVerif.Proofs.C13_Cow
+import ArvVerif.Proofs.C13_Lock
 namespace ArvVerif.C13
 open ArvVerif.C08
 
-theorem C13_complete_absent (hash : Bytes → Loc) (max : Nat) (s : St) (g : Nat) (ok : Bool)
-    (h : s.groups[g]? = none) : (complete hash max s g ok).1 = s := by
-  simp [complete, h]
+variable {max : Nat} {hash : Bytes → Loc}
+
+/-- **Invariant.** From the empty collection, after any sequence of atomic steps — foreground
+operations of any workers in any interleaving (including single `read` calls), async flushes,
+completions of any background write in any order with any outcome, saves — the state satisfies
+`Inv13`: C08's invariant (files well-formed, pointers valid, Keep consistent) and every `flushing`
+token on a segment is backed: the segment's bytes are a prefix of the piece of the block that was
+handed to PutB under that token, and the block is in Keep. -/
+theorem C13_inv_invariant (hinj : Function.Injective hash) (hmax : 1 ≤ max) :
+    Inv13 max hash St.init ∧
+    ∀ (s : St) (e : Ev), Inv13 max hash s → Inv13 max hash (evStep hash max s e).1 := by
+  refine ⟨init_inv13, ?_⟩
+  intro s e hinv
+  by_cases hdet : e.det = true
+  · exact (event_refines hinj hmax hinv e hdet).2.2
+  · -- the only event that is not `det` is a single Read call
+    cases e with
+    | fg w op =>
+      cases op with
+      | read h n =>
+        obtain ⟨_, _, _, h3, _⟩ := C08_read_step_refines (max := max) (hash := hash) hinv.base h n
+        obtain ⟨p1, p2⟩ := step_plain (hash := hash) (markOK_truncClosed (max := max) (hash := hash) s.fs.world s.toks)
+          s.fs (Op.read h n) rfl
+        refine ⟨h3, ?_⟩
+        show AllSegs (MarkOK max hash (step (concImpl hash max) s.fs (Op.read h n)).1.world s.toks) _
+        rw [p1]
+        exact p2 hinv.marks
+      | _ => exact absurd rfl hdet
+    | _ => exact absurd rfl hdet
+
+/-- **A background completion is safe.** In any state satisfying the invariant — i.e. at any later
+time, after any other completions and foreground operations — the goroutine tail of
+pruneMemSegments / async commitBlock, run for ANY list of (file, captured index, token) references
+and with success or failure of PutB:
+
+* leaves the abstract filesystem (every file's content, the tree, every handle's offset) unchanged
+  and keeps the invariant (so it can be followed by anything);
+* is a no-op when PutB failed;
+* per reference, is a no-op unless the segment at the captured index is a mem segment that still
+  carries this very token (overwritten data got a new buffer and lost the token: it is never put
+  back) and, for pruneMemSegments, still has the captured length;
+* when it does replace, installs the stored segment over the handed-off block with the segment's
+  current length — whose bytes are the segment's bytes (C08_flush_invisible). -/
+theorem C13_flush_completion_safe {s : St} (hinv : Inv13 max hash s) (refs : List (Nat × Nat × Nat)) (ok : Bool) :
+    absFS (completeRefs hash max s.toks ok s.fs refs) = absFS s.fs ∧
+    Inv13 max hash { s with fs := completeRefs hash max s.toks ok s.fs refs } ∧
+    completeRefs hash max s.toks false s.fs refs = s.fs ∧
+    (∀ (fs : Conc) (r : Nat × Nat × Nat), (∀ buf, segAt fs r.1 r.2.1 ≠ some (Seg.mem buf (mark max r.2.2))) →
+      completeRef hash max s.toks ok fs r = fs) ∧
+    (∀ (fs : Conc) (r : Nat × Nat × Nat) (tk : Tok) (n : Nat) (buf : Bytes) (fl : Flush),
+      s.toks[r.2.2]? = some tk → tk.plen = some n → segAt fs r.1 r.2.1 = some (Seg.mem buf fl) → buf.length ≠ n →
+      completeRef hash max s.toks ok fs r = fs) ∧
+    (∀ (fs : Conc) (r : Nat × Nat × Nat) (tk : Tok) (buf : Bytes),
+      s.toks[r.2.2]? = some tk → segAt fs r.1 r.2.1 = some (Seg.mem buf (mark max r.2.2)) →
+      (tk.plen = none ∨ tk.plen = some buf.length) →
+      completeRef hash max s.toks true fs r =
+        setSegAt fs r.1 r.2.1 (Seg.stored (hash tk.block) tk.block.length tk.off buf.length)) := by
+  obtain ⟨h1, h2⟩ := completeRefs_spec ok refs hinv
+  refine ⟨h2, h1, ?_, fun fs r h => completeRef_guard s.toks ok fs r h,
+    fun fs r tk n buf fl h1 h2 h3 h4 => completeRef_resized s.toks ok fs r h1 h2 h3 h4,
+    fun fs r tk buf h1 h2 h3 => completeRef_replaces s.toks fs r h1 h2 h3⟩
+  induction refs generalizing s with
+  | nil => rfl
+  | cons r rest ih =>
+    simp only [completeRefs, List.foldl_cons, completeRef_failed]
+    exact ih hinv (completeRefs_spec ok rest hinv).1 (completeRefs_spec ok rest hinv).2
+
+/-- the completion of a whole group, and the "complete everything" loop before a save -/
+theorem C13_complete_group_safe {s : St} (hinv : Inv13 max hash s) (g : Nat) (ok : Bool) :
+    Inv13 max hash (complete hash max s g ok).1 ∧ absFS (complete hash max s g ok).1.fs = absFS s.fs :=
+  complete_spec hinv g ok
+
+/-- **Copy-on-write.** In the heap model of memSegment (slice header + allocation; Truncate and
+WriteAt allocate a new buffer exactly when the Go code does), after any sequence of Truncate /
+WriteAt / Slice / hand-off / drop operations on any number of segments, every buffer that was ever
+handed to a background writer still holds exactly the bytes it held at hand-off. -/
+theorem C13_handoff_immutable (ops : List Cow.Op) {st st' : Cow.State} (hinv : Cow.Inv st)
+    (hrun : Cow.run st ops = some st') :
+    (∀ sh ∈ st.shared, sh ∈ st'.shared) ∧
+    (∀ sh ∈ st'.shared, ((st'.heap[sh.ptr]?).getD []).take sh.len = sh.snap) ∧ Cow.Inv st' := by
+  obtain ⟨h1, h2⟩ := Cow.run_inv ops hinv hrun
+  exact ⟨h2, h1.intact, h1⟩
+
+/-- the empty heap satisfies the copy-on-write invariant -/
+theorem C13_cow_init : Cow.Inv ⟨[], [], []⟩ :=
+  ⟨(fun _ _ _ _ h => by simp at h), (fun _ h => by cases h), (fun _ h => by cases h), (fun _ h => by cases h),
+   (fun _ h => by cases h)⟩
+
+/-- **Linearizability.** For every schedule — any list of atomic steps: foreground operations tagged
+with the worker that issues them, async flushes, completions of background writes (any of them, in
+any order, at any time, succeeding or failing), saves — run from any state satisfying the invariant
+(in particular the empty collection): the results the workers get are the results of the plain
+in-memory filesystem executing the foreground operations sequentially in schedule order
+(completions and flushes invisible); the final state abstracts to the plain model's final state;
+the invariant holds at the end. Since the sequential order IS the schedule order, it respects every
+worker's program order (`C13_program_order`). -/
+theorem C13_linearizable (hinj : Function.Injective hash) (hmax : 1 ≤ max) (evs : List Ev) (s : St)
+    (hinv : Inv13 max hash s) (hdet : ∀ e ∈ evs, e.det = true) :
+    OutsRef (run13 hash max s evs).2 (runSpec (absFS s.fs) evs).2 ∧
+    absFS (run13 hash max s evs).1.fs = (runSpec (absFS s.fs) evs).1 ∧
+    Inv13 max hash (run13 hash max s evs).1 :=
+  history_refines hinj hmax evs s hinv hdet
+
+/-- the worker that issues an event (completions are issued by no worker) -/
+def Ev.worker : Ev → Option Nat
+  | Ev.fg w _ => some w
+  | Ev.flush w _ _ => some w
+  | Ev.save w _ _ => some w
+  | Ev.complete _ _ => none
+
+/-- the foreground part of a schedule: what the sequential specification executes -/
+def fgPart (evs : List Ev) : List Ev := evs.filter (fun e => e.worker.isSome)
+
+/-- A schedule is an interleaving of the workers' programs iff its projection to each worker is that
+worker's program; the sequential history (the foreground part, in schedule order) has the same
+projections: every handle's program order is respected. -/
+theorem C13_program_order (progs : Nat → List Ev) (evs : List Ev)
+    (h : ∀ w, evs.filter (fun e => e.worker == some w) = progs w) :
+    ∀ w, (fgPart evs).filter (fun e => e.worker == some w) = progs w := by
+  intro w
+  rw [← h w]
+  unfold fgPart
+  rw [List.filter_filter]
+  congr 1
+  funext e
+  cases hw : e.worker <;> simp
+
+/-- the specification ignores completion events -/
+theorem runSpec_complete (S : Plain) (g : Nat) (ok : Bool) (rest : List Ev) :
+    (runSpec S (Ev.complete g ok :: rest)).1 = (runSpec S rest).1 := rfl
+
+theorem run13_append (s : St) (a b : List Ev) :
+    run13 hash max s (a ++ b) =
+      ((run13 hash max (run13 hash max s a).1 b).1, (run13 hash max s a).2 ++ (run13 hash max (run13 hash max s a).1 b).2) := by
+  induction a generalizing s with
+  | nil => rfl
+  | cons e rest ih => simp only [List.cons_append, run13, ih]
+
+theorem runSpec_append (S : Plain) (a b : List Ev) :
+    runSpec S (a ++ b) = ((runSpec (runSpec S a).1 b).1, (runSpec S a).2 ++ (runSpec (runSpec S a).1 b).2) := by
+  induction a generalizing S with
+  | nil => rfl
+  | cons e rest ih => simp only [List.cons_append, runSpec, ih]
+
+/-- **Saved manifests.** A save issued at any point of any schedule (after any prefix `pre`) either
+fails (only when Keep writes were made to fail) or returns, for every file, exactly the content the
+plain model holds after the prefix — a content the file actually passed through, consistent across
+files. -/
+theorem C13_saved_manifest (hinj : Function.Injective hash) (hmax : 1 ≤ max) (pre : List Ev) (s : St)
+    (hinv : Inv13 max hash s) (hdet : ∀ e ∈ pre, e.det = true) (w mask : Nat) (fail : Bool) :
+    (evStep hash max (run13 hash max s pre).1 (Ev.save w mask fail)).2 =
+        Out.snap (snapshot id (runSpec (absFS s.fs) pre).1) ∨
+    ((evStep hash max (run13 hash max s pre).1 (Ev.save w mask fail)).2 = Out.failed ∧ fail = true) := by
+  obtain ⟨_, h2, h3⟩ := history_refines hinj hmax pre s hinv hdet
+  obtain ⟨_, _, h⟩ := save_spec hinj h3 w mask fail
+  rw [h2] at h
+  exact h
+
+/-- **Lock order.** Operations that obey the hierarchical rule (first lock taken holding nothing;
+every further lock is the child of a held lock; exclusive locks) cannot form a wait-for cycle, in
+any configuration of any number of operations. -/
+theorem C13_lock_order {parent : Lock.Lk → Lock.Lk} {depth : Lock.Lk → Nat} {ops : List Lock.OpState}
+    (hok : ∀ o ∈ ops, Lock.OpOK parent depth o) (hex : Lock.Exclusive ops) (i : Nat) : ¬ Lock.Path ops i i :=
+  Lock.no_cycle hok hex i
+
+/-- Rename (mutex, ancestors of newdir then of olddir root-first without repetition, moved inode)
+and Flush / MarshalManifest (directory, then descendants level by level) take their locks by the
+rule, on every inode tree; hence every state they pass through is `OpOK` (`Lock.script_opOK`). -/
+theorem C13_lock_scripts {par : Nat → Nat} {dep : Nat → Nat} (ht : Lock.TreeOK par dep) :
+    (∀ (fuel od nd moved : Nat), dep od ≤ fuel → dep nd ≤ fuel → moved ≠ 0 → par moved = od →
+      moved + 1 ∉ ((Lock.chainUp par fuel od ++ Lock.chainUp par fuel nd).reverse.map (· + 1)).foldl Lock.addNew [0] →
+      Lock.ScriptOK (Lock.lparent par) (Lock.ldepth dep) (Lock.renameScript par fuel od nd moved)) ∧
+    (∀ (kids : Nat → List Nat), (∀ d c, c ∈ kids d → par c = d ∧ c ≠ 0) → ∀ (fuel d : Nat),
+      (Lock.flushScript kids fuel d).Nodup →
+      Lock.ScriptOK (Lock.lparent par) (Lock.ldepth dep) (Lock.flushScript kids fuel d)) ∧
+    (∀ (script : List Lock.Lk) (s0 : Lock.Lk), script[0]? = some s0 →
+      Lock.ScriptOK (Lock.lparent par) (Lock.ldepth dep) script → ∀ k,
+      Lock.OpOK (Lock.lparent par) (Lock.ldepth dep) ⟨s0, script.take k, (script[k]?).toList⟩) :=
+  ⟨fun fuel od nd moved h1 h2 h3 h4 h5 => (Lock.renameScript_ok ht fuel od nd moved h1 h2 h3 h4 h5).1,
+   fun kids hk fuel d hnd => Lock.flushScript_ok ht hk fuel d hnd,
+   fun script s0 h0 hs k => Lock.script_opOK h0 hs k⟩
+
+/-! ### Non-vacuity -/
+
+/-- `id` is a collision-free locator function; block size 2 -/
+example : Function.Injective (id : Bytes → Loc) := fun _ _ h => h
+
+/-- the empty collection satisfies the invariant -/
+example : Inv13 2 id St.init := init_inv13
+
+/-- a state with one empty file and two read-write handles on it (two workers) -/
+def exState : St :=
+  { fs := { world := fun _ => none, ents := [((0, "a"), Node.file 0)], dirs := [(".", 0)],
+            files := [("a", FileNode.empty)],
+            handles := [(0, ⟨Node.file 0, Ptr.zero, false, true, true⟩), (1, ⟨Node.file 0, Ptr.zero, false, true, true⟩)] },
+    toks := [], groups := [] }
+
+theorem exState_inv : Inv13 2 id exState := by
+  refine ⟨⟨(fun _ _ h => by cases h), ?_, ?_, ?_⟩, ?_⟩
+  · intro nf hnf
+    simp only [exState, List.mem_singleton] at hnf
+    rw [hnf]; exact ⟨⟨rfl, fun s hs => by cases hs⟩, by decide⟩
+  · intro e he f hf
+    simp only [exState, List.mem_cons, List.not_mem_nil, or_false] at he
+    rcases he with he | he
+    · rw [he] at hf ⊢; cases hf
+      exact ⟨("a", FileNode.empty), rfl, by decide, fun _ => Or.inl (by decide)⟩
+    · rw [he] at hf ⊢; cases hf
+      exact ⟨("a", FileNode.empty), rfl, by decide, fun _ => Or.inl (by decide)⟩
+  · intro e he f hf
+    simp only [exState, List.mem_singleton] at he
+    rw [he] at hf; cases hf; decide
+  · intro nf hnf sg hsg
+    simp only [exState, List.mem_singleton] at hnf
+    rw [hnf] at hsg; cases hsg
+
+/-- A schedule with two workers: worker 0 writes 4 bytes with block size 2 (two background writes
+start), worker 1 overwrites the first block through its own handle (copy-on-write: the segment loses
+its token and is flushed again under a new one), then the first background write completes
+successfully (stale: it must not replace), then the second one (replaces). -/
+def exSched : List Ev :=
+  [Ev.fg 0 (Op.write 0 [1, 2, 3, 4]), Ev.fg 1 (Op.write 1 [9, 9]), Ev.complete 0 true, Ev.complete 1 true,
+   Ev.fg 0 (Op.seek 0 0 0), Ev.fg 0 (Op.readn 0 4)]
+
+example : ∀ e ∈ exSched, e.det = true := by decide
+
+/-- segment kinds of file 0 (true = mem) -/
+def memShape (s : St) : List Bool :=
+  match s.fs.files[0]? with
+  | some nf => nf.2.segs.map Seg.isMem
+  | none => []
+
+example : memShape (run13 id 2 exState (exSched.take 2)).1 = [true, true] := by decide
+example : ((run13 id 2 exState (exSched.take 2)).1.groups.map (·.isOpen)) = [true, true, true] := by decide
+/-- the stale completion of group 0 leaves the overwritten segment alone -/
+example : memShape (run13 id 2 exState (exSched.take 3)).1 = [true, true] := by decide
+/-- the completion of group 1 replaces the second segment -/
+example : memShape (run13 id 2 exState (exSched.take 4)).1 = [true, false] := by decide
+
+/-- the theorems apply to it: the invariant holds at the end, and the reader sees the overwrite -/
+example : Inv13 2 id (run13 id 2 exState exSched).1 :=
+  (C13_linearizable (fun _ _ h => h) (by decide) exSched exState exState_inv (by decide)).2.2
+
+/-- a non-trivial copy-on-write run: write, hand off, overwrite (new allocation), truncate -/
+def exCow : List Cow.Op :=
+  [Cow.Op.handOff 0 7, Cow.Op.writeAt 0 [9] 1, Cow.Op.truncate 0 1, Cow.Op.handOff 0 8, Cow.Op.truncate 0 3]
+
+def exCowState : Cow.State := ⟨[[1, 2, 3, 0]], [⟨0, 3, 4, none⟩], []⟩
+
+example : Cow.Inv exCowState := by
+  refine ⟨?_, ?_, (fun _ h => by cases h), (fun _ h => by cases h), (fun _ h => by cases h)⟩
+  · intro i j a b ha hb _
+    have hi : i = 0 := by
+      cases i with
+      | zero => rfl
+      | succ i => simp [exCowState] at ha
+    have hj : j = 0 := by
+      cases j with
+      | zero => rfl
+      | succ j => simp [exCowState] at hb
+    omega
+  · intro sg h
+    simp only [exCowState, List.mem_singleton] at h
+    subst h; decide
+
+example : ((Cow.run exCowState exCow).map (fun st => (st.shared.map (·.snap), st.heap.length))) =
+    some ([[1], [1, 2, 3]], 3) := by decide
+
+/-- a configuration obeying the locking rule: a Rename holding mutex, root and directory 1, blocked
+on directory 2 held by a Flush of directory 2 that is blocked on its child 3 held by a writer -/
+example : ∀ o ∈ [(⟨0, [0, 1, 2], [3]⟩ : Lock.OpState), ⟨3, [3], [4]⟩, ⟨4, [4], []⟩],
+    Lock.OpOK (fun l => if l = 0 then 0 else if l = 4 then 3 else if l = 3 then 1 else l - 1)
+      (fun l => if l = 4 then 3 else if l = 3 then 2 else l) o := by
+  intro o ho
+  simp only [List.mem_cons, List.mem_singleton, List.not_mem_nil, or_false] at ho
+  rcases ho with h | h | h <;> subst h <;> constructor <;> decide
 
 end ArvVerif.C13
